@@ -304,6 +304,12 @@ def make_scenario(rng, name, shape, policy, ndebug=False, sanitize=True, late_cl
     H = hier_of(scn['classes'])
     roots = [c for c in sorted(H) if not H[c]]
     since = {c['id']: c['since'] for c in scn['classes']}
+    if sum(map(ord, name)) % 3 == 0:
+        # every third scenario: the classes nothing derives from are declared final
+        has_derived = set(b for c in scn['classes'] for b, _ in c['bases'])
+        for c in scn['classes']:
+            if c['id'] not in has_derived:
+                c['final'] = True
 
     def add_method(rs):
         m = {'id': len(scn['methods']), 'roots': list(rs), 'defs': [{'classes': list(rs), 'since': 1}]}
@@ -378,7 +384,8 @@ def make_c15_scenario(rng, name, shape, policy='default', sanitize=True):
     H0 = hier_of(scn['classes'])
     parent = rng.choice([c for c in sorted(H0) if H0[c]] or sorted(H0))
     U = n
-    scn['classes'].append({'id': U, 'bases': [[parent, 0]], 'since': 1, 'registered': False})
+    # every other scenario: the unregistered class is declared final
+    scn['classes'].append({'id': U, 'bases': [[parent, 0]], 'since': 1, 'registered': False, 'final': sum(map(ord, name)) % 2 == 0})
     T = n + 1            # registered, seen by the first update, then unregistered (dynamic registration object)
     scn['classes'].append({'id': T, 'bases': [[parent, 0]], 'since': 1, 'until': 2, 'registered': True, 'dynamic': True})
     H = hier_of(scn['classes'])
@@ -688,7 +695,9 @@ def emit_cpp(scn):
         rt = ''
         if custom:
             rt = ' static constexpr type_id static_id = %d; virtual type_id dyn_id() const { return static_id; }' % (i + 1)
-        w('struct %s%s {%s long f%d = %d; virtual ~%s() {} };' % (K(scn, i), (' : ' + bs) if bs else '', rt, i, 7000 + i, K(scn, i)))
+        # `final`: a class declared final in C++ (no class derives from it in the scenario): an implementation may not take a
+        # shortcut on std::is_final that skips the registration check or the v-table lookup
+        w('struct %s%s%s {%s long f%d = %d; virtual ~%s() {} };' % (K(scn, i), ' final' if c.get('final') else '', (' : ' + bs) if bs else '', rt, i, 7000 + i, K(scn, i)))
     early = [c['id'] for c in scn['classes'] if c.get('registered', True) and c.get('since', 1) == 1 and not c.get('dynamic')]
     w('register_classes(%s, P);' % ', '.join(K(scn, i) for i in early))
     for c in scn['classes']:
